@@ -130,7 +130,26 @@ def observe_expand(typ, kind, key, u, g):
     return None
 
 
-def run_combo(ctx, C, typ, syn, kind, key, vals, subset, orig_sc, can_patch):
+def call_config(typ, syn, form):
+    """the call's own config in one of its equivalent spellings: explicit type + syntax; syntax omitted (effective syntax = the
+    type's default); type and syntax omitted (markup / html)"""
+    if form == 'nosyntax':
+        return {'type': typ}
+    if form == 'bare':
+        return {}
+    return {'type': typ, 'syntax': syn}
+
+
+def forms_for(typ, syn):
+    f = ['explicit']
+    if syn == {'markup': 'html', 'stylesheet': 'css'}[typ]:
+        f.append('nosyntax')
+        if typ == 'markup':
+            f.append('bare')
+    return f
+
+
+def run_combo(ctx, C, typ, syn, kind, key, vals, subset, orig_sc, can_patch, form='explicit'):
     from emmet.config import Config
     L1, L2, L3, L4, L5 = subset
     sc = copy.deepcopy(orig_sc)
@@ -147,11 +166,11 @@ def run_combo(ctx, C, typ, syn, kind, key, vals, subset, orig_sc, can_patch):
         g[typ] = {kind: {key: vals[2]}}
     if L4:
         g.setdefault(syn, {})[kind] = {key: vals[3]}
-    u = {'type': typ, 'syntax': syn}
+    u = call_config(typ, syn, form)
     if L5:
         u[kind] = {key: vals[4]}
     u0, g0 = caller_digest(u), digest(g)
-    case = {'type': typ, 'syntax': syn, 'kind': kind, 'key': key, 'subset': list(subset)}
+    case = {'type': typ, 'syntax': syn, 'kind': kind, 'key': key, 'subset': list(subset), 'form': form}
     exp = expected_value(C, orig_sc, typ, syn, kind, key, subset, vals)
     if can_patch:
         C.SYNTAX_CONFIG = sc
@@ -197,6 +216,7 @@ def run_combo(ctx, C, typ, syn, kind, key, vals, subset, orig_sc, can_patch):
     if sum(subset) >= 2:
         ctx.seen(case)
     ctx.state('winner', '%s:%d' % (kind, max([i + 1 for i, on in enumerate(subset) if on], default=0)))
+    ctx.state('call-config-form', form)
     return cfg
 
 
@@ -210,7 +230,8 @@ def run_multi(ctx, C, typ, syn, rng, orig_sc, can_patch):
     other_syn = rng.choice([s for s in SYN[typ] + SYN[other_typ] if s != syn and s != typ])
     sc = copy.deepcopy(orig_sc)
     g = {}
-    u = {'type': typ, 'syntax': syn}
+    form = rng.choice(forms_for(typ, syn))
+    u = call_config(typ, syn, form)
     plan = []
     for kind, key, vals in keys:
         subset = tuple(rng.random() < 0.45 for _ in range(5))
@@ -315,6 +336,8 @@ def run_shard(desc, ctx):
             for subset in itertools.product((0, 1), repeat=5):
                 if not can_patch and (subset[0] or subset[1]):
                     continue
+                for form in forms_for(typ, syn)[1:]:
+                    run_combo(ctx, C, typ, syn, kind, key, vals, subset, orig_sc, can_patch, form)
                 cfg = run_combo(ctx, C, typ, syn, kind, key, vals, subset, orig_sc, can_patch)
                 if cfg is None:
                     continue
@@ -378,7 +401,7 @@ def replay(case, ctx):
     vals = [v for k, kk, v in KEYS[case['type']] if (k, kk) == (case['kind'], case['key'])][0]
     base = digest(builtin_tables())
     run_combo(ctx, C, case['type'], case['syntax'], case['kind'], case['key'], vals, tuple(case['subset']),
-              C.SYNTAX_CONFIG, True)
+              C.SYNTAX_CONFIG, True, case.get('form', 'explicit'))
     if digest(builtin_tables()) != base:
         ctx.violation('builtin-table-mutated', case, {})
 
